@@ -264,6 +264,7 @@ func main() {
 	for si := 0; si < nScripts; si++ {
 		runScript(r, root, si, nBlocks)
 	}
+	_ = os.RemoveAll(root) // Finish exits the process; deferred calls would not run
 	r.Floor("crash_states", 50)
 	r.Floor("states.before_genesis", 1)
 	r.Floor("states.inside_commit_partial_page", 1)
